@@ -130,6 +130,11 @@ def replay(chk, payload):
             v = oracles.c17_report_header(y['E'], payload['blt'], opts, y)
             print("report header oracle:", v or 'holds')
             bad = bad or bool(v)
+        if 'blt_one_group' in payload:
+            x = cd.impl_count(payload['blt_one_group'], opts)
+            same = (x['status'], x['trace'], x.get('arith')) == (y['status'], y['trace'], y.get('arith'))
+            print("count identical to the count with the options in one [droop ...] group:", same)
+            return 1 if (bad or not same) else 0
         blt0 = re.sub(r'\n\[droop [^\]]*\]', '', payload['blt'])
         x = cd.impl_count(blt0, dict(rule=opts['rule']))
         same = (x['status'], x['trace']) == (y['status'], y['trace'])
